@@ -70,13 +70,13 @@ PROPS = {
     "C01": dict(
         level="proof", modules=CODEC_MODS + ["NasVerif.Props.C01"], parts=["Codec"],
         streams=[("codec-dec", 6000, 60000)], oracle="C01", trusted_base=TB_CODEC,
-        rule="table-driven decode inputs (every message x slot x probe length x truncation point, reordered/duplicated/unknown IEIs, malformed edits, 70 kB runs); non-trivial = distinct input the implementation decodes successfully",
+        rule="table-driven decode inputs (every message x slot x probe length x truncation point, reordered/duplicated/unknown IEIs, malformed edits, 70 kB runs); non-trivial = distinct input the implementation decodes successfully; element contents are structured (fills, small alphabet, embedded 16-bit lengths, counted and length-prefixed lists); when an obligation is broken the deep families of the focused search run for the place it names (thorough: for every message); an allocation / time excess counts only when present in four measurements",
         assumptions=["the allocation theorem counts the octets the decoder requests (make + optional-element structs); Go runtime rounding and encoding/binary / reflect temporaries are measured against a bound (512*len + 4*64KiB + 16KiB), not proved"],
     ),
     "C02": dict(
         level="proof", modules=CODEC_MODS + ["NasVerif.Props.C02"], parts=["Codec"],
         streams=[("codec-enc", 1500, 20000)], oracle="C02", trusted_base=TB_CODEC,
-        rule="well-formed messages generated from the extracted tables (optional subsets, legal lengths, random content); non-trivial = distinct op the implementation accepts",
+        rule="well-formed messages generated from the extracted tables (optional subsets, legal lengths, random content); non-trivial = distinct op the implementation accepts; constant fills (00.., ff..) of every lengthed element at every legal length; caller-built headers and stale stored lengths are emitted for the other oracles and skipped here (not well formed)",
     ),
     "C03": dict(
         level="proof", modules=CODEC_MODS + ["NasVerif.Props.C03"], parts=["Codec"],
@@ -86,7 +86,7 @@ PROPS = {
     "C05": dict(
         level="proof", modules=CODEC_MODS + ["NasVerif.Props.C05"], parts=["Codec"],
         streams=[("dispatch", 1, 1)], oracle="C05", trusted_base=TB_CODEC + ["spec/dispatch.json pinned from TS 24.501 Tables 9.7.1/9.7.2"],
-        rule="exhaustive 256x256 (discriminator, type) pairs at both header offsets with minimal valid bodies; all inputs of length 0..2, sampled 3..4; encode dispatch over all 256 types; non-trivial = accepted",
+        rule="exhaustive 256x256 (discriminator, type) pairs at both header offsets with minimal valid bodies; all inputs of length 0..2, sampled 3..4; encode dispatch over all 256 types; non-trivial = accepted; zero / typeless headers with a body attached; complete messages nested in container elements x container-type nibble; the header view is also read and written through its accessors",
     ),
     "C11": dict(
         level="proof", modules=["NasVerif.Props.C11", "NasVerif.Props.C11Tie"], parts=["Counter"],
@@ -101,7 +101,7 @@ PROPS = {
         trusted_base=TB_COMMON + ["tools/extract accessors: typed Go expression -> Acc.E (literal transcription; GetBitMask inlined from its own body)",
                                    "Spec/AccessorLayout.lean + spec/accessor_layout.json: the Row/sBit/len annotations at the pinned commit (TS 24.501 figure layouts)",
                                    "Buffer-backed accessors: theorems assume the Buffer is long enough to contain the field's rows (a shorter Buffer makes the Go accessor panic)"],
-        rule="every accessor pair x (all-zero / all-one / random prior contents) x (0, max, field-width boundary, random values); thorough: exhaustive 256x256 per single-octet 8-bit-typed field; non-trivial = distinct op executed",
+        rule="every accessor pair x (all-zero / all-one / random prior contents) x (0, max, field-width boundary, random values); thorough: exhaustive 256x256 per single-octet 8-bit-typed field; non-trivial = distinct op executed; the text pair DNN.SetDNN/GetDNN (op accs: dotted texts with empty labels, labels of 61..64 and coded lengths of 98..101 octets); the identifier / length accessors of array-backed elements (op accl: SetLen / SetIei leave the contents alone)",
     ),
     "C04": dict(
         level="proof", modules=CODEC_MODS + ["NasVerif.Props.C04"], parts=["Codec"],
@@ -116,7 +116,7 @@ PROPS = {
         trusted_base=TB_COMMON + ["Spec/Snow3G.lean, Spec/ZUC.lean, Spec/EEA.lean, Spec/AES.lean: transcriptions of the ETSI/SAGE, ZUC v1.6, EEA3/EIA3 v1.8, FIPS-197, SP 800-38A/B, TS 33.401 Annex B specifications, validated on published vectors",
                                    "hand-written Model/Snow3g.lean, Model/Zuc.lean, Model/Security.lean mirror the Go functions; the leaf functions (snow3g mulx/mulxPow/s1/s2/mulAlpha/divAlpha, zuc rot/l1/l2/makeU32, security mulx/mulxPow) are in addition regenerated from the source on every run (tools/extract/leaf.go -> Gen/CryptoLeaf.lean) and proved equal to the model's (Props/CryptoLeafTie.lean); loops and state-passing methods are tied by the correspondence run (keystreams, leaf functions through verif hooks, NEA/NIA at every bit length)",
                                    "crypto/aes, cipher.NewCTR, github.com/aead/cmac: modelled by Spec.AES (compared on every run)"],
-        rule="direct Go-vs-specification stream: every bit length 0..200 (thorough 0..700) x 3 algorithms, all 32 bearers x 2 directions, random keys/counts (incl. 0xffffffff), random longer payloads; plus model correspondence (keystreams, leaf functions, per-algorithm functions); non-trivial = distinct op executed",
+        rule="direct Go-vs-specification stream: every bit length 0..200 (thorough 0..700) x 3 algorithms, all 32 bearers x 2 directions, random keys/counts (incl. 0xffffffff), random longer payloads; plus model correspondence (keystreams, leaf functions, per-algorithm functions); non-trivial = distinct op executed; same parameters again with other lengths, neighbouring parameter sets (single and double bit flips of COUNT / BEARER / DIRECTION) back to back, LFSR feedback sums steered to every small residue, surplus octets and slack bits behind LENGTH for NEA1 / NEA3 / NIA3; every input slice is a window of a larger buffer",
     ),
     "C07": dict(
         level="proof", modules=["NasVerif.Props.C07", "NasVerif.Props.CryptoLeafTie"], parts=["Crypto", "Globals"], extra=c08_extra,
@@ -128,7 +128,7 @@ PROPS = {
         level="proof", modules=["NasVerif.Props.C08", "NasVerif.Props.CryptoLeafTie"], parts=["Crypto", "Globals"], extra=c08_extra,
         streams=[("secapi", 2000, 12000), ("security", 1000, 4000)], oracle="C08",
         trusted_base=TB_COMMON + ["Model/Security.lean NASEncrypt/NASMacCalculate mirror the Go guard sequence and switch; tied by the correspondence run over the (algorithm, bearer, direction, payload) grid"],
-        rule="grid of algorithm ids (all 256) x bearers x directions x payloads (nil, empty, 1 octet, random) + every payload length 0..70 per algorithm + random lengths to 1500; oracle evaluates involution, prefix stability (every prefix), plaintext independence, validation, NULL algorithms, MAC length on the real code",
+        rule="grid of algorithm ids (all 256) x bearers x directions x payloads (nil, empty, 1 octet, random) + every payload length 0..70 per algorithm + random lengths to 1500; oracle evaluates involution, prefix stability (every prefix), plaintext independence, validation, NULL algorithms, MAC length on the real code; payloads around every power of two up to 8 KiB (thorough 64 KiB); payloads, messages and prefixes passed as windows of larger buffers, the octets behind them checked",
     ),
     "C20": dict(
         level="proof", modules=["NasVerif.Props.C20"], parts=[],
@@ -142,7 +142,7 @@ PROPS = {
         streams=[("pco", 1500, 15000)], oracle="C16",
         trusted_base=TB_COMMON[:1] + ["hand-written Model/Pco.lean mirrors PSI.go, PDUSessionReactivationResultErrorCause.go and the Marshal/UnMarshal state machine of ProtocolConfigurationOptions.go (binary.Read on a bytes.Reader modelled as list parsing); tied by the correspondence run",
                                         "the Add* convenience builders of ProtocolConfigurationOptions.go (net.IP handling) are not modelled"],
-        rule="all 65 536 PSI bitmaps in both directions (exhaustive); generated unit lists (ids incl. 16-bit extremes, contents 0..255 octets, consistent and inconsistent lengths); parse inputs: exhaustive 1-2 octets, sampled 3-5, valid encodings truncated at random points, random bytes; non-trivial = distinct op",
+        rule="all 65 536 PSI bitmaps in both directions (exhaustive); generated unit lists (ids incl. 16-bit extremes, contents 0..255 octets, consistent and inconsistent lengths); parse inputs: exhaustive 1-2 octets, sampled 3-5, valid encodings truncated at random points, random bytes; non-trivial = distinct op; every container identifier 0x0001..0x0040 and the protocol identifiers with empty / short / 255-octet contents, repeated units; scripts of the Add… builders (op pcobuild) with 4-, 16-octet, IPv4-mapped and ill-sized addresses",
     ),
     "C17": dict(
         level="proof", modules=["NasVerif.Props.C17"], parts=[],
@@ -170,7 +170,7 @@ PROPS = {
         level="proof", modules=["NasVerif.Props.C13"], parts=[],
         streams=[("conv13", 300, 2000)], oracle="C13",
         trusted_base=TB_COMMON[:1] + TB_CONV + ["Spec/Lists.lean: decoders written from TS 24.501 9.11.2.8 / 9.11.3.37 / 9.11.3.46 / 9.11.3.9 / 9.11.3.49 / 9.11.3.29-30 (transcriptions); the Go-side oracle holds a second, independent set of decoders"],
-        rule="every SST with/without SD; requested NSSAI lists of 0..12 entries over the five element forms (homogeneous and mixed), truncations, corrupted and all 256 head length octets; rejected NSSAI 0..8 + 0..8 entries; TAI lists of 1..20 entries x five PLMN-mix modes (one PLMN, all different, same MCC / different MNC, 2- vs 3-digit MNC, last entry differs); LADN with DNN lengths 0..255; service-area lists of 0..20 TACs x both restriction types; LADN indications valid and mutated; non-trivial = distinct op answered with a value",
+        rule="every SST with/without SD; requested NSSAI lists of 0..12 entries over the five element forms (homogeneous and mixed), truncations, corrupted and all 256 head length octets; rejected NSSAI 0..8 + 0..8 entries; TAI lists of 1..20 entries x five PLMN-mix modes (one PLMN, all different, same MCC / different MNC, 2- vs 3-digit MNC, last entry differs); LADN with DNN lengths 0..255; service-area lists of 0..20 TACs x both restriction types; LADN indications valid and mutated; non-trivial = distinct op answered with a value; TAC families (consecutive, shuffled, duplicated, first/last n-1 apart, descending); complete NSSAI entries of every non-form length at head / middle / tail; octet pools {1,2}; every conversion called twice with the same argument slices",
         assumptions=["lists outside the property's ranges (17+ TAIs, 0 TACs, contents over 255 octets) are compared between model and implementation but not judged by the oracle"],
     ),
     "C15": dict(
@@ -188,14 +188,14 @@ PROPS = {
         trusted_base=TB_COMMON[:1] + ["hand-written Model/UePolicy.lean mirrors the uePolicyContainer package (nested length-prefixed parsers over bytes.Buffer.Next with uint16 length arithmetic that wraps, io.EOF ending every list walker, marshalers that recompute lengths); tied by the correspondence run",
                                         "encoding/binary / bytes.Buffer semantics modelled (Model/Qos.lean readers + readBytes)",
                                         "tools/harness/uepolicy.go: independent Annex-D encoders for wire inputs; the PLMN oracle compares SetPlmnDigit with nasConvert.PlmnIDToNas and the TS 24.008 layout"],
-        rule="three decoders: every input of length 0..1, length 2 sampled (thorough: all 65 536), random 3..16 octets biased to small length fields; well-formed lists (0..3 sublists x 0..3 instructions x 0..3 parts, empty and 300-octet contents) whole, truncated at every octet, every 16-bit window set to 0/1/2/3/0xffff, mutated, and wrapped as command / reject messages; results likewise; messages built through the API and header/body mismatches; all 256 message types; PLMN setters of sublist and sub-result for every MCC 100..999 x 7 MNCs (thorough: all 990) and values around the accepted range; non-trivial = distinct op answered with a value",
+        rule="three decoders: every input of length 0..1, length 2 sampled (thorough: all 65 536), random 3..16 octets biased to small length fields; well-formed lists (0..3 sublists x 0..3 instructions x 0..3 parts, empty and 300-octet contents) whole, truncated at every octet, every 16-bit window set to 0/1/2/3/0xffff, mutated, and wrapped as command / reject messages; results likewise; messages built through the API and header/body mismatches; all 256 message types; PLMN setters of sublist and sub-result for every MCC 100..999 x 7 MNCs (thorough: all 990) and values around the accepted range; non-trivial = distinct op answered with a value; descriptions built through the construction API only (ops upc apil / apir / apim: constructors, setters, appenders, SetLen_byContent, SetPlmnDigit incl. values around its accepted range, SetNSSUI 0/1/other) and read back through the getters",
     ),
     "C10": dict(
         level="proof", modules=CODEC_MODS + ["NasVerif.Props.C10"], parts=["Codec"],
         streams=[("codec-dec", 4000, 40000), ("codec-enc", 1200, 12000)], oracle="C10", trusted_base=TB_CODEC + [
             "modelled, not verified (Codec/Heap.lean): bytes.NewBuffer aliases its argument and only reads it, binary.Read copies into its destination, make returns fresh memory, binary.Write / Buffer.Write append — Go library semantics",
             "the translator's closed statement language: a codec statement outside the IR (e.g. `a.X.Buffer = buffer.Next(n)`) fails the run and is searched with the aliasing oracles on the real code"],
-        rule="decode stream (table-driven valid, boundary, truncated, reordered, malformed inputs for all 45 messages and the three entry points): input snapshot before/after, decode twice, flip every input octet afterwards and re-read the message, scribble over every slice (and its spare capacity) of the message and re-read the input; encode stream (well-formed messages): encode into a pre-filled buffer with spare capacity, twice, compare prefix / outputs / deep message snapshot, flip the output and re-read the message; non-trivial = distinct op the implementation accepts",
+        rule="decode stream (table-driven valid, boundary, truncated, reordered, malformed inputs for all 45 messages and the three entry points): input snapshot before/after, decode twice, flip every input octet afterwards and re-read the message, scribble over every slice (and its spare capacity) of the message and re-read the input; encode stream (well-formed messages): encode into a pre-filled buffer with spare capacity, twice, compare prefix / outputs / deep message snapshot, flip the output and re-read the message; non-trivial = distinct op the implementation accepts; caller-built messages (type-only header view) and stale stored lengths in the encode stream; the snapshot covers the whole Message (header view, both family pointers)",
     ),
     "C19": dict(
         level="other", modules=["NasVerif.Props.C19"], parts=["Globals"],
@@ -203,7 +203,7 @@ PROPS = {
         trusted_base=TB_COMMON[:1] + ["tools/extract globals part: syntactic, conservative scan of typed ASTs for assignments to, address-taking of and reference escapes of package-level variables outside init (all library packages; internal/tools/** is a build-time generator and is excluded)",
                                         "the Go memory model, the standard library and logrus (internally synchronised handles are the only shared objects handed out) are not modelled",
                                         "the Go race detector (go build -race) and the harness's concurrent driver"],
-        rule="op mix drawn from 14 generators (decode, encode, ciphers, MACs, accessors, identity/list/QoS/UE-policy helpers, counter, allocator, PCO, timers), each line building its own values; executed once sequentially and once from 64 goroutines dealt round-robin (odd goroutines walk backwards) under the race detector, plus 200 decoded messages re-read and re-encoded by all goroutines at once; every concurrent outcome compared with the sequential one",
+        rule="op mix drawn from 14 generators (decode, encode, ciphers, MACs, accessors, identity/list/QoS/UE-policy helpers, counter, allocator, PCO, timers), each line building its own values; executed once sequentially and once from 64 goroutines dealt round-robin (odd goroutines walk backwards) under the race detector, plus 200 decoded messages re-read and re-encoded by all goroutines at once; every concurrent outcome compared with the sequential one; a contended phase (per op kind every goroutine repeats its own line at the same time); shared read-only values besides decoded messages (PCO Marshal, QoS MarshalBinary); the nasConvert readers applied to every buffer of every shared message; an unlocked io.Writer installed as the logger output",
         explanation="Partial by nature. Proved in Lean: (1) in an abstract interleaving semantics where no step writes the shared store and each thread writes only its own store, every schedule gives every thread the result of its own sequential run; (2) on the facts regenerated from every library package on this run, no function other than init assigns a package-level variable, takes its address or hands out a reference to it, and the module imports neither unsafe nor cgo (decide). Together: a library call is a function of read-only globals and its arguments. Not expressible in the model and therefore checked at run time only: the Go memory model, races inside the standard library / logrus, arguments that share memory. The run-time half executes a generated op mix from 64 goroutines under the Go race detector and compares every result with the sequential run.",
         assumptions=["goroutines operate on distinct values (each op line constructs its own) or only read a shared decoded message", "schedules are sampled by the Go scheduler under -race, not enumerated"],
     ),
